@@ -25,13 +25,13 @@ RULE = ("arithmetic-heavy type-directed expression trees (constants, variables, 
 
 BIN = list(X.BINOPS)      # add sub mul div floordiv mod pow
 UN = list(X.UNOPS)        # neg pos
-POSITIONS = ["print", "filter-arg", "macro-default", "set", "if", "loop-filter", "with", "callblock", "import", "include", "extends"]
+POSITIONS = ["print", "filter-arg", "macro-default", "set", "if", "loop-filter", "with", "callblock", "import", "include", "extends", "trans", "trans-count", "trans-old"]
 
 
 ENV_KINDS = ["class", "instance", "immutable", "async", "overlay", "table"]
 
 
-def make_env(ib, iu, log, kind="class"):
+def make_env(ib, iu, log, kind="class", newstyle=True):
     """a recording-and-perturbing sandbox of one of the environment kinds: intercepted sets on the class / on the
     instance, ImmutableSandboxedEnvironment, async, an overlay of a configured environment, hooks installed through
     binop_table / unop_table instead of overriding call_binop / call_unop"""
@@ -49,7 +49,7 @@ def make_env(ib, iu, log, kind="class"):
         class Rec(base):
             intercepted_binops = bset
             intercepted_unops = uset
-        env = Rec(loader=loader)
+        env = Rec(loader=loader, extensions=["jinja2.ext.i18n"])
         for sym in list(env.binop_table):
             env.binop_table[sym] = (lambda f, sym: lambda l, r: (log.append(("bin", sym, l, r)), pert(f(l, r)))[1])(env.binop_table[sym], sym)
         for sym in list(env.unop_table):
@@ -67,16 +67,20 @@ def make_env(ib, iu, log, kind="class"):
             def call_unop(self, context, operator, arg):
                 log.append(("un", operator, arg))
                 return pert(super().call_unop(context, operator, arg))
-        env = Rec(loader=loader, enable_async=(kind == "async"))
+        env = Rec(loader=loader, enable_async=(kind == "async"), extensions=["jinja2.ext.i18n"])
         if kind == "instance":
             env.intercepted_binops = bset
             env.intercepted_unops = uset
-        if kind == "overlay":
-            env = env.overlay(trim_blocks=True)
     env.globals.clear()
+    # the i18n extension: trans blocks place expressions into generated calls.  Installed BEFORE the overlay is made: the
+    # install_* callables of an overlay still configure the environment the extension was created for.
+    env.install_null_translations(newstyle=newstyle)
+    if kind == "overlay":
+        env = env.overlay(trim_blocks=True)
     return env
 
 
+TRANS_MSG = "v %(xx)s"
 LOADER_POSITIONS = {"import", "include", "extends"}
 
 
@@ -104,6 +108,10 @@ def template_for(pos, src):
         return "{% include 'lib' %}"
     if pos == "extends":
         return "{% extends 'base' %}{% block bb %}{{ " + src + " }}{% endblock %}"
+    if pos in ("trans", "trans-old"):
+        return "{% trans xx=" + src + " %}v {{ xx }}{% endtrans %}"
+    if pos == "trans-count":
+        return "{% trans count=" + src + " %}{{ count }} item{% pluralize %}{{ count }} items{% endtrans %}"
     raise ValueError(pos)
 
 
@@ -128,6 +136,10 @@ def render_pos(env, pos, src, data):
     r = X.real_render(env, template_for(pos, src), data)
     if pos == "extends" and r[0] == "ok" and r[1].startswith("[") and r[1].endswith("]"):
         r = ("ok", r[1][1:-1])
+    if pos in ("trans", "trans-old") and r[0] == "ok" and r[1].startswith("v "):
+        r = ("ok", r[1][2:])
+    if pos == "trans-count" and r[0] == "ok" and r[1].endswith((" item", " items")):
+        r = ("ok", r[1].rsplit(" item", 1)[0])
     return r
 
 
@@ -164,10 +176,19 @@ def one_case(ctx, e, ds, ib, iu, pos, ev_line, gen_line, fold_line):
     st = X.canon_text(f["ST"])
     log = []
     kind = ENV_KINDS[ds % len(ENV_KINDS)]
-    env = make_env(ib, iu, log, kind)
+    env = make_env(ib, iu, log, kind, newstyle=pos != "trans-old")
     data = X.make_data(random.Random(ds), [])
     tsrc = template_for(pos, src)
     rr = render_pos(env, pos, src, data)
+    if pos == "trans-old":
+        # old-style gettext: the extension itself formats the message with a synthesised `message % {variables}` node, which is
+        # routed like a written one when % is intercepted (the conservative choice: it is the operator a sandbox intercepts
+        # to control formatting).  Exactly one such application, after the written ones, iff % is intercepted and no error.
+        fmt = [ev for ev in log if ev[0] == "bin" and ev[1] == "%" and ev[2] == TRANS_MSG]
+        log[:] = [ev for ev in log if not (ev[0] == "bin" and ev[1] == "%" and ev[2] == TRANS_MSG)]
+        if len(fmt) != (1 if "mod" in ib and rr[0] == "ok" else 0) and not (rr[0] == "err" and len(fmt) <= 1):
+            ctx.reject(dict(case, formatting=repr(fmt)[:300]), f"old-style trans block: {len(fmt)} formatting applications routed, % intercepted: {'mod' in ib}",
+                       "C20:trans-old-format:" + ",".join(ib + iu) + ":" + src)
     got = [ev for ev in X.canon_real_log(log)]
     ctx.case(sample={"template": tsrc, "intercepted": ib + iu, "hook_log": f["SL"][:200], "text": repr(rr)} if want_log and len(src) > 20 else None,
              key=(tuple(ib), tuple(iu), pos, src) if want_log else None)
@@ -187,7 +208,7 @@ def one_case(ctx, e, ds, ib, iu, pos, ev_line, gen_line, fold_line):
                 "the hook saw an application that the documented evaluation does not make" if extra else
                 "hook applications in a different order")
         ctx.reject(dict(case, want=repr(want_log)[:600], got=repr(got)[:600]), what + f": predicted {len(want_log)} applications, observed {len(got)}", sig)
-    if pos in ("print", "set", "macro-default", "filter-arg", "with", "callblock", "import", "include", "extends"):
+    if pos in ("print", "set", "macro-default", "filter-arg", "with", "callblock", "import", "include", "extends", "trans", "trans-count", "trans-old"):
         exp = st
         if pos == "filter-arg" and spec[0] == "ok" and spec[1][0] == "u":
             exp = ("ok", "")
@@ -282,6 +303,8 @@ def run_wild(ctx):
         elog = CanonLog()
         try:
             exp = ("ok", XR.canon(hook_ref(ib, iu, elog, kind == "async").ev(e, XR.wild_data(seed, []))))
+        except XR.Unspecified:
+            exp, elog = real, rlog                 # the documented semantics leaves this result open
         except RecursionError:
             exp = ("err", "RecursionError")
         except Exception as ex:
